@@ -687,8 +687,8 @@ static unsigned char utf16_literal_to_utf8(const unsigned char * const input_poi
     /* get the first utf16 sequence */
     first_code = parse_hex4(first_sequence + 2);
 
-    /* check that the code is valid */
-    if (((first_code >= 0xDC00) && (first_code <= 0xDFFF)))
+    /* check that the code is valid: parse_hex4 returns 0 for invalid digits (and for the unsupported \u0000) */
+    if ((first_code == 0) || ((first_code >= 0xDC00) && (first_code <= 0xDFFF)))
     {
         goto fail;
     }
